@@ -52,6 +52,7 @@ type trSpec struct {
 	Actions map[string]int               // statement text -> action id
 	Rets    map[string]int               // non-boolean, non-integer return expressions -> id
 	Ignore  []string                     // extra regexps for statements without effect on the model
+	Skips   map[string]string            // nested loop header -> boolean atom: the nested loop ended by `continue <label of the unit's loop>` (the rest of the body is skipped)
 }
 
 var defaultIgnore = []string{
@@ -353,6 +354,13 @@ func (t *translator) stmts(l []ast.Stmt, acts []int, e renv, k cont) string {
 				return leaf(acts, "Brk")
 			}
 		}
+		if v.Label != nil {
+			// a labelled continue / break that leaves this unit's loop for an enclosing one: white-listed by its text,
+			// recorded as an action, and the unit's loop ends (Brk)
+			if id, ok := t.act(t.text(v)); ok {
+				return leaf(appendAct(acts, id), "Brk")
+			}
+		}
 		panic(trErr{"branch statement: " + t.text(v)})
 	case *ast.IfStmt:
 		e2 := e
@@ -469,11 +477,20 @@ func (t *translator) stmts(l []ast.Stmt, acts []int, e renv, k cont) string {
 		return buildSel(0)
 	case *ast.EmptyStmt:
 		return next(acts, e)
+	case *ast.LabeledStmt:
+		return t.stmts(append([]ast.Stmt{v.Stmt}, rest...), acts, e, k)
 	case *ast.RangeStmt, *ast.ForStmt:
 		// a nested loop is one opaque, white-listed action identified by its header; its body is a
 		// translation unit of its own (Loop: k)
 		hdr := t.loopHeader(s)
 		if id, ok := t.act(hdr); ok {
+			if an, skips := t.spec.Skips[hdr]; skips {
+				a, found := t.atom(an, e)
+				if !found || a.Ty != "bool" {
+					panic(trErr{"skip atom missing for loop " + hdr})
+				}
+				return "(if " + a.Coq + "\n then " + leaf(appendAct(acts, id), "Fall") + "\n else " + next(appendAct(acts, id), e) + ")"
+			}
 			return next(appendAct(acts, id), e)
 		}
 		panic(trErr{"loop not in the action table: " + hdr})
@@ -656,6 +673,29 @@ func runTranslator(repo, outDir, pinPath string, pin bool) {
 		fmt.Fprintf(&b, "(* %s: %s%s *)\nDefinition g_%s%s : list Z * leaf :=\n %s.\nDefinition g_%s_translated : bool := %v.\n\n",
 			s.File, s.Func, map[bool]string{true: fmt.Sprintf(", body of loop %d", s.Loop), false: ""}[s.Loop > 0],
 			s.Name, s.signature(), term, s.Name, err == nil)
+	}
+	// wiring of the flows (wiring.go): lists of constructor codes instead of decision terms
+	for _, w := range wiringUnits(repo) {
+		st := map[string]interface{}{"props": w.Props, "file": w.File, "func": w.Func, "loop": 0, "lit": 0}
+		term := w.Term
+		if w.Err != nil {
+			st["translated"] = false
+			st["why"] = w.Err.Error()
+			fmt.Fprintf(os.Stderr, "gen (wiring): %s: %v -- using the pinned value\n", w.Name, w.Err)
+			term = pinned[w.Name]
+			if term == "" {
+				term = "[]%Z"
+			}
+		} else {
+			st["translated"] = true
+			st["same_as_pinned"] = pinned[w.Name] == term
+			if pin {
+				pinned[w.Name] = term
+			}
+		}
+		status[w.Name] = st
+		fmt.Fprintf(&b, "(* %s: %s, wiring *)\nDefinition g_%s : list Z :=\n %s.\nDefinition g_%s_translated : bool := %v.\n\n",
+			w.File, w.Func, w.Name, term, w.Name, w.Err == nil)
 	}
 	path := filepath.Join(outDir, "GeneratedTr.v")
 	if old, _ := os.ReadFile(path); string(old) != b.String() {
